@@ -16,7 +16,7 @@ pub const FLOORS: &[&str] = &[
     "reset_after_eval_store", "reset_after_program_store", "reset_twice", "reset_then_full_run",
     "store_into_code", "store_into_stack_area", "memory_dirty_before_reset", "output:minimal", "output:decorated",
     "assembly_after_store_into_code", "resumed_under_debugger_after_reset", "reset_while_paused_on_breakpoint",
-    "resume_after_reset_compared_with_fresh_session", "reset_after_unfinished_step_over_call", "halt_planted_before_reset", "reset_after_eval_jump", "reset_while_parked_on_a_halt_planted_at_the_origin", "planted_halt_at_the_origin_reached_by_running", "words_exchanged_before_reset",
+    "resume_after_reset_compared_with_fresh_session", "reset_after_unfinished_step_over_call", "halt_planted_before_reset", "reset_after_eval_jump", "reset_while_parked_on_a_halt_planted_at_the_origin", "planted_halt_at_the_origin_reached_by_running", "words_exchanged_before_reset", "reset_after_a_long_run", "image_ends_at_fffe",
 ];
 
 const FUEL: u64 = 15_000;
@@ -145,6 +145,26 @@ fn one_case(seed: u64, i: u64) -> CaseOut {
         max_sections: 4,
     };
     let mut built = gen_structured(&mut rng, &o);
+    // a program that runs for 60,000 instructions, run to its end, reset and run again: the second run is a
+    // fresh run however much was executed before (miri: left out, four orders of magnitude slower)
+    let long_history = !cfg!(miri) && i % 41 == 13;
+    let fuel_scale: u64 = if long_history { 40 } else { 1 };
+    if long_history {
+        let st = |label: Option<&str>, stmt: Stmt| Item::Stmt { label: label.map(|l| l.to_string()), stmt };
+        let mut items: Vec<Item> = match o.origin { Some(v) => vec![Item::Orig(v)], None => vec![] };
+        items.extend(vec![
+            st(None, Stmt::Ld(1, Target::Label("n".into()))),
+            st(Some("lp"), Stmt::AddI(2, 2, 1)),
+            st(None, Stmt::AddI(1, 1, -1)),
+            st(None, Stmt::Br(1, Target::Label("lp".into()))),
+            st(None, Stmt::Alias(0x25)),
+            st(Some("n"), Stmt::Fill(20_000 + (i % 7) as i32 * 3_000)),
+            Item::End,
+        ]);
+        built.program = Program { items };
+        built.input.clear();
+        built.features.clear();
+    }
     // input would be consumed before the reset and missing afterwards: programs without input
     for _ in 0..6 {
         if !built.features.contains(&"input") {
@@ -155,6 +175,18 @@ fn one_case(seed: u64, i: u64) -> CaseOut {
     if built.features.contains(&"input") {
         out.evals = 0;
         return out;
+    }
+    // the largest image there is: padded so that its last word is xFFFE and the loader's HALT stands in
+    // xFFFF, the last word of memory - part of what was loaded like every other word
+    if i % 43 == 29 && !long_history {
+        if let Verdict::Accept(pre) = encode(&built.program) {
+            let end = pre.origin() as usize + pre.words.len();
+            if end < 0xFFFF {
+                let at = built.program.items.iter().position(|it| matches!(it, Item::End)).unwrap_or(built.program.items.len());
+                built.program.items.insert(at, Item::Stmt { label: None, stmt: Stmt::Blkw((0xFFFF - end) as i32) });
+                out.class("image_ends_at_fffe");
+            }
+        }
     }
     let img = match encode(&built.program) {
         Verdict::Accept(img) => img,
@@ -312,7 +344,17 @@ fn one_case(seed: u64, i: u64) -> CaseOut {
             tags.push("assembly_after_store_into_code");
         }
     }
-    let n_resets = 1 + rng.below(3);
+    if long_history {
+        lines.clear();
+        bp_lines.clear();
+        lines.push(rng.s(&["continue", "si 50000", "continue"]).to_string());
+        if rng.bool() {
+            lines.push("continue".to_string());
+        }
+        tags.clear();
+        tags.push("reset_after_a_long_run");
+    }
+    let n_resets = if long_history { 1 } else { 1 + rng.below(3) };
     let mut reset_lines = Vec::new();
     for k in 0..n_resets {
         reset_lines.push(lines.len());
@@ -323,7 +365,7 @@ fn one_case(seed: u64, i: u64) -> CaseOut {
             lines.push("si 2".into());
         }
     }
-    let full_run = rng.chance(2, 3) || halt_at_origin_history;
+    let full_run = rng.chance(2, 3) || halt_at_origin_history || long_history;
     let mut resume_cmd: Option<String> = None;
     if full_run {
         // resume in different ways before detaching: with the debugger still attached for a while
@@ -333,7 +375,7 @@ fn one_case(seed: u64, i: u64) -> CaseOut {
             1 => Some(format!("si {}", 1 + rng.below(6))),
             2 => Some("step".to_string()),
             3 if stack => Some("step out".to_string()),
-            _ if halt_at_origin_history => Some("continue".to_string()),
+            _ if halt_at_origin_history || long_history => Some("continue".to_string()),
             _ => None,
         };
         if let Some(r) = &resume {
@@ -353,7 +395,7 @@ fn one_case(seed: u64, i: u64) -> CaseOut {
         out.evals = 0;
         return out;
     };
-    let sess = match run_session(&text, stack, &script, &[], 6 * FUEL, false) {
+    let sess = match run_session(&text, stack, &script, &[], 6 * FUEL * fuel_scale, false) {
         Ok(s) => s,
         Err(o) => {
             out.inconclusive = Some(format!("not assembled ({})", o.class()));
@@ -458,7 +500,7 @@ fn one_case(seed: u64, i: u64) -> CaseOut {
                 .spawn_scoped(s, move || {
                     crate::exec::case_minimal(minimal);
                     let (mut env, _) = build_env(&t, stack, None).ok()?;
-                    let obs = run_env(&mut env, RunCfg { fuel: Some(FUEL), input: vec![], keep_trace: false, on_prompt: None });
+                    let obs = run_env(&mut env, RunCfg { fuel: Some(FUEL * fuel_scale), input: vec![], keep_trace: false, on_prompt: None });
                     Some((obs.end, obs.out_normal, final_state(&env)))
                 })
                 .ok()?
@@ -507,7 +549,7 @@ fn one_case(seed: u64, i: u64) -> CaseOut {
                 .stack_size(8 << 20)
                 .spawn_scoped(sc, || {
                     crate::exec::case_minimal(minimal);
-                    run_session(&t, stack, &fscript, &[], 6 * FUEL, false).ok()
+                    run_session(&t, stack, &fscript, &[], 6 * FUEL * fuel_scale, false).ok()
                 })
                 .ok()?
                 .join()
